@@ -20,10 +20,22 @@ FAMILIES = ['cycle', 'chain', 'alt', 'noloc', 'badloc', 'e500', 'e401', 'reset',
 def make_handler(case):
     codes = case['codes']
 
+    hits = {}
+
     def handler(req):
         t = req['target']
         host = req['host'].lower().replace(':80', '')
         html = [('Content-Type', 'text/html; charset=utf-8')]
+        fam0 = t.split('/')[1] if t.count('/') >= 2 else t
+        hits[fam0] = hits.get(fam0, 0) + 1
+        if hits[fam0] > 400:
+            # circuit breaker: a crawler that never gives up is let out with a plain page so that the run ends and the
+            # oracle can report the overshoot from the request log
+            return {'status': 200, 'headers': html, 'body': b'<html><body>breaker</body></html>'}
+        if t == '/robots.txt':
+            if case.get('robots_mode') == 'always-503':
+                return {'status': 503, 'reason': 'Unavailable', 'headers': html, 'body': b'later'}
+            return {'status': 404, 'reason': 'NF', 'headers': html, 'body': b'nf'}
         if t == '/':
             links = ''.join('<a href="/%s/0">%s</a>\n' % (f, f) for f in case['families'])
             links += '<a href="/sentinel.html">s</a>'
@@ -67,7 +79,7 @@ def run_case(case, part):
     tmp = tempfile.mkdtemp(prefix='vc18')
     try:
         db = os.path.join(tmp, 'crawl.db')
-        argv = ['http://a.test/', '-r', '--level', '1', '--no-robots', '--database', db, '-P', tmp, '--delete-after',
+        argv = ['http://a.test/', '-r', '--level', '1'] + ([] if case.get('robots_mode') else ['--no-robots']) + ['--database', db, '-P', tmp, '--delete-after',
                 '--quiet', '--waitretry', '0', '--tries', str(case['tries']), '--max-redirect', str(case['max_redirect']),
                 '--concurrent', str(case['concurrent']), '--timeout', '10']
         if case['with_login']:
@@ -89,6 +101,18 @@ def run_case(case, part):
         fam = e['target'].split('/')[1] if e['target'].count('/') >= 2 else e['target']
         counts[fam] = counts.get(fam, 0) + 1
     rowmap = {r['url']: r for r in rows}
+    if case.get('robots_mode') == 'always-503':
+        n = sum(1 for e in log if e['target'] == '/robots.txt')
+        others = [e['target'] for e in log if e['target'] != '/robots.txt']
+        part.count('robots_always_503_crawls')
+        if n > case['tries'] + 1:
+            part.violation('robots-txt-retried-beyond-tries', {'requests': n, 'tries': case['tries']}, replay)
+        elif others:
+            part.violation('page-fetched-although-robots-txt-503', {'targets': others[:4]}, replay)
+        else:
+            part.count('families_within_bound')
+        part.nontrivial_case('robots503/{}'.format(case['tries']))
+        return
     if not any(e['target'] == '/sentinel.html' for e in log):
         part.violation('sentinel-not-fetched', {'counts': counts}, replay)
     tries, maxr = case['tries'], case['max_redirect']
@@ -156,7 +180,8 @@ def main():
             fams = [f for f in FAMILIES if f != 'auth401']
             cases.append({'max_redirect': m, 'tries': t, 'families': fams,
                           'codes': [rng.choice([301, 302, 303, 307, 308]) for _ in range(rng.choice([1, 2, 3]))],
-                          'with_login': rng.random() < 0.4, 'concurrent': rng.choice([1, 1, 3])})
+                          'with_login': rng.random() < 0.4, 'concurrent': rng.choice([1, 1, 3]),
+                          'robots_mode': 'always-503' if i % 8 == 7 else None})
         nj = check.jobs * (2 if check.thorough else 1)
         jobs = [{'cases': cases[i::nj]} for i in range(nj) if cases[i::nj]]
         res = par.run_jobs(target, jobs, check.jobs, timeout=7200 if check.thorough else 900)
